@@ -84,7 +84,7 @@ func main() {
 	rounds := r.Pick(20, 16) // thorough: per shard
 	ks := []int{2, 8, 32}
 	vias := []string{"direct", "grpc", "mixed"}
-	idModes := []string{"distinct", "shared", "mixed", "duplicate"}
+	idModes := []string{"distinct", "shared", "mixed", "duplicate", "onefield"}
 	// rounds are independent (own cluster, own PRNG derived from seed and round number); a few run
 	// side by side to keep the wall time down
 	par := r.Pick(3, 2)
@@ -100,7 +100,7 @@ func main() {
 				}
 				g := i + r.Shard*rounds // global round number: shards walk through different plans
 				rrng := rand.New(rand.NewSource(r.Seed*1000003 + int64(g)*7919 + 17))
-				p := roundPlan{Members: 1, K: ks[g%3], Via: vias[(g/3)%3], IDs: idModes[g%4], Malformed: rrng.Intn(4),
+				p := roundPlan{Members: 1, K: ks[g%3], Via: vias[(g/3)%3], IDs: idModes[(g+g/10)%5], Malformed: rrng.Intn(4),
 					PreResign: g%5 == 3, PostResign: g%2 == 0, Restart: g%4 == 1, ForeignKind: g}
 				if r.Thorough() && (g%7)%2 == 1 {
 					p.Members = 3
@@ -124,6 +124,7 @@ func main() {
 				case 9:
 					p.TxnFault, p.TxnN = "fail-before", 1+(g/10)%2
 				}
+				p.RestartEarly = g%10 == 3 || g%20 == 10
 				p.Populate = g%3 == 1
 				p.Side = g%2 == 1
 				bootstrapRound(r, g, p, rrng)
